@@ -310,6 +310,9 @@ class Simulation:
                 "the process stack."
             )
         self.env.run(until=until)
+        # like start(): hand the events of the last timestep to the monitor,
+        # so that the event log does not lag one step behind after a resume
+        self.monitor.collate_events()
 
     def is_finished(self):
         """
